@@ -350,7 +350,7 @@ struct TemplateCore {
 
                         TagBit *tag_bit = storage->Last();
 
-                        switch (tag_bit->GetType()) {
+                        switch ((tag_bit != nullptr) ? tag_bit->GetType() : TagType::None) {
                             case TagType::SuperVariable: {
                                 SuperVariableTag &tag = tag_bit->GetSuperVariableTag();
                                 tag.EndOffset         = finder.GetOffset();
@@ -764,7 +764,7 @@ struct TemplateCore {
                         Array<TagBit> *tmp     = *(parent_storage.Last());
                         TagBit        *tag_bit = tmp->Last();
 
-                        if (tag_bit->GetType() == TagType::If) {
+                        if ((tag_bit != nullptr) && (tag_bit->GetType() == TagType::If)) {
                             const SizeT offset = finder.GetOffset();
                             IfTag      &tag    = tag_bit->GetIfTag();
 
@@ -785,7 +785,7 @@ struct TemplateCore {
                         Array<TagBit> *tmp     = *(parent_storage.Last());
                         TagBit        *tag_bit = tmp->Last();
 
-                        if (tag_bit->GetType() == TagType::If) {
+                        if ((tag_bit != nullptr) && (tag_bit->GetType() == TagType::If)) {
                             IfTag &tag        = tag_bit->GetIfTag();
                             SizeT  offset     = finder.GetOffset();
                             bool   is_if_else = false;
